@@ -19,6 +19,13 @@ PROPS = {
                   {"checks": 300, "steps": 60, "shards": 14, "timeout": 5000, "shrinktime": "120s"}),
         ],
     },
+    "C18": {
+        "level": "fault_enumeration",
+        "jobs": [
+            rapid("faults", "^TestC18$", {"checks": 12, "shards": 10, "timeout": 900, "shrinktime": "30s"},
+                  {"checks": 12, "shards": 14, "timeout": 6000, "shrinktime": "120s"}),
+        ],
+    },
     "C08": {
         "level": "exploration",
         "jobs": [
